@@ -14,8 +14,8 @@ from mc import seams
 RULE = ("task lists: EVERY list of <=L tasks over 8 concrete tasks of the three kinds (measurable with task-specific coefficients incl. a constant term, constant "
         "operators as term / sum of constants / empty sum, zero-shot non-constant) - circuits prepare basis states so every Z-term value is exactly coefficient x "
         "eigenvalue whatever the (scripted) sampler answers; shot sweep: every basis state of 3 qubits x every Z-subset x shot counts on both sides of the "
-        "sampler's internal threshold; exact values: circuits x operators incl. X/Y terms vs psi^dagger M psi; binding: every list of <=3 tasks (two sharing ONE "
-        "circuit object) x per-task maps. non-trivial = list mixing at least two task kinds / non-palindromic basis state")
+        "sampler's internal threshold, and EVERY shot count 1..130 on two basis states with bit-exact comparison; exact values: circuits x operators incl. X/Y terms and constants, tasks with shot numbers None/0/5 vs psi^dagger M psi; binding: every list of <=3 tasks "
+        "(two sharing ONE circuit object, zero-shot and constant-operator tasks with parametrised circuits) x per-task maps. non-trivial = list mixing at least two task kinds / non-palindromic basis state")
 ASSUMPTIONS = ["sampling randomness scripted with default answers (basis states have a single outcome with p>1e-12)", "the runner records what it is asked to run through an overriding subclass that only logs and delegates"]
 BOUNDS = {"quick": {"list_len": 3}, "thorough": {"list_len": 5}}
 
@@ -115,6 +115,9 @@ def shots_case(case):
     vals = np.asarray(res[0].values).reshape(-1)
     exp = [c * (-1) ** sum(bits[q] for q in S) for S, c in zip(subsets, coefs)]
     ok = len(vals) == len(exp) and np.allclose(vals, exp, atol=1e-12)
+    if case.get("exact"):
+        # "exactly coefficient times eigenvalue regardless of shot count": all shots are identical, so the sample mean of the eigenvalue is exactly +-1
+        ok = ok and [complex(v) for v in vals.tolist()] == [complex(e) for e in exp]
     r = {"ok": bool(ok), "nt": bits != bits[::-1], "out": "shots%d" % case["shots"]}
     if not ok:
         r.update(msg="basis state %s, %d shots: estimated Z-term values are not coefficient x eigenvalue" % (bits, case["shots"]), expected=str(exp), observed=str(vals.tolist()), sig="shots")
@@ -140,8 +143,12 @@ def exact_case(case):
         if max([int(q) for _, o in desc for q in o] + [0]) >= n:
             continue
         op = PauliSum([PauliTerm({int(q): p for q, p in o.items()}, c) if o else PauliTerm("I0", c) for c, o in desc])
-        tasks.append(EstimationTask(op, circ, None))
+        # the shot number of a task is irrelevant to an exact evaluation: None, 0 (a "zero-shot" task) and positive numbers alike
+        tasks.append(EstimationTask(op, circ, (None, 0, 5)[len(tasks) % 3]))
         exps.append(np.vdot(psi, rp.sum_matrix(desc, n) @ psi).real)
+    for c, shots in ((2.5, 0), (-1.0, 3)):
+        tasks.append(EstimationTask(PauliSum([PauliTerm("I0", c)]), circ, shots))
+        exps.append(c)
     res = calculate_exact_expectation_values(SymbolicSimulator(), tasks)
     if len(res) != len(tasks):
         return {"ok": False, "msg": "%d exact results for %d tasks" % (len(res), len(tasks)), "sig": "exact:length"}
@@ -161,7 +168,9 @@ def bind_case(case):
     th, ph = sympy.Symbol("theta"), sympy.Symbol("phi")
     shared = C.Circuit([C.RX(th)(0), C.RY(ph)(1)], n_qubits=3)
     pool = [EstimationTask(PauliTerm({0: "Z"}, 1.0), shared, 5), EstimationTask(PauliTerm({1: "Z"}, 2.0), shared, 7),
-            EstimationTask(PauliTerm({0: "Z", 1: "Z"}, 3.0), C.Circuit([C.RX(th * 2)(1)], n_qubits=2), None), EstimationTask(PauliTerm("I0", 1.0), C.Circuit([C.X(0)]), 0)]
+            EstimationTask(PauliTerm({0: "Z", 1: "Z"}, 3.0), C.Circuit([C.RX(th * 2)(1)], n_qubits=2), None), EstimationTask(PauliTerm("I0", 1.0), C.Circuit([C.X(0)]), 0),
+            # tasks that estimation would not send to a runner still carry circuits that must be bound like any other
+            EstimationTask(PauliTerm({0: "Z"}, 1.0), C.Circuit([C.RX(th)(0), C.RZ(ph + th)(1)], n_qubits=2), 0), EstimationTask(PauliTerm("I0", 2.0), C.Circuit([C.RY(ph)(0)]), 4)]
     tasks = [pool[i] for i in case["tasks"]]
     maps = [{th: m[0], ph: m[1]} for m in case["maps"]]
     maps_before = [dict(m) for m in maps]
@@ -192,6 +201,7 @@ def run(run):
             Section("split", [{"tasks": l} for l in lists if len(l) <= 3], split_case, desc="split_estimation_tasks_to_measure partitions positions in ascending order")]
     sw = [{"bits": list(b), "shots": s} for b in itertools.product((0, 1), repeat=3) for s in (1, 2, 3, 7, 8, 9, 10, 20)]
     sw += [{"bits": list(b), "shots": s} for b in itertools.product((0, 1), repeat=2) for s in (1, 3, 4, 5)]
+    sw += [{"bits": list(b), "shots": s, "exact": True} for b in ((1, 0, 1), (0, 1, 1)) for s in range(1, 201 if thorough else 131)]
     secs.append(Section("shot_sweep", sw, shots_case, desc="basis states x shot counts on both sides of the sampler's threshold: Z-term value = coefficient x eigenvalue"))
     ex = []
     for n in (2, 3):
@@ -203,7 +213,7 @@ def run(run):
     MV = [[0.3, -1.1], [2.5, 0.7], [-0.4, 0.0]]
     bc = []
     for k in range(0, 4):
-        for idx in itertools.product(range(4), repeat=k):
+        for idx in itertools.product(range(6), repeat=k):
             for ms in ([MV[:k]] if k else [[]]) + ([[MV[(j + 1) % 3] for j in range(k)]] if k else []):
                 bc.append({"tasks": list(idx), "maps": ms})
     secs.append(Section("binding", bc, bind_case, horizon=120, desc="evaluate_estimation_circuits: every list of <=3 tasks (two share one circuit object) x per-task maps"))
